@@ -32,9 +32,13 @@ pub enum StopCase {
 
 pub struct C07;
 
+/// `n` = number of node-entry polls after which the hook flips the flag; -1 = never; BEFORE_START = the flag is
+/// already down when the search begins
+const BEFORE_START: i64 = -2;
+
 fn stopped_search(g: &Game, table: &mut srch::TranspositionTable, depth: u8, n: i64) -> Result<(Option<String>, u64, u64), String> {
-    srch::hooks::reset(n, false);
-    let out = srch::run_search(g, table, Some(depth), 20_000);
+    srch::hooks::reset(if n == BEFORE_START { -1 } else { n }, false);
+    let out = srch::run_search_flag(g, table, Some(depth), 20_000, n != BEFORE_START);
     let polls = srch::hooks::POLLS.load(Relaxed);
     let after = srch::hooks::POLLS_AFTER_STOP.load(Relaxed);
     srch::hooks::reset(-1, false);
@@ -144,6 +148,27 @@ impl C07 {
             x *= 1.4;
         }
         ev.class("positions_swept");
+        // the stop that is there before the search starts: with the table as it is, and with a table that already
+        // holds a full-depth result for this very root (the driver then starts deepening above depth 1)
+        let legal: Vec<String> = p.legal().iter().map(|m| m.uci()).collect();
+        for deep_warm in [false, true] {
+            let mut t = base.clone();
+            if deep_warm {
+                let _ = stopped_search(&g, &mut t, depth, -1).map_err(|e| Fail::new("panic", e))?;
+            }
+            let (best, _, after) = stopped_search(&g, &mut t, depth, BEFORE_START).map_err(|e| Fail::new("panic", format!("{} stop before the search starts: {}", p.fen4(), e)))?;
+            ev.eval();
+            ev.class(if deep_warm { "stop_before_the_search_starts_root_cached_at_full_depth" } else { "stop_before_the_search_starts" });
+            let bad = match &best {
+                None => !legal.is_empty(),
+                Some(m) => !legal.contains(m),
+            };
+            if bad || after != 0 {
+                let rec = StopCase::Cycle { start: start.fen6(), moves: moves.iter().map(|m| m.uci()).collect(), depth, warm, binary: false };
+                let sig = if after != 0 { "nodes-expanded-after-stop" } else if best.is_none() { "stopped-search-returns-no-move" } else { "stopped-search-returns-illegal-move" };
+                return Err(Fail::new(sig, format!("{} : stop flag already down when the depth-{} search starts (root cached at full depth: {}): answer {:?}, {} node entries; legal {:?}", p.fen4(), depth, deep_warm, best, after, legal)).with_case(serde_json::to_value(rec).unwrap()));
+            }
+        }
         for n in ns {
             if let Err(f) = self.one(p, &g, &base, depth, n, d1, ev) {
                 // a failure that may depend on the game record is replayed with the record, not from the bare position
@@ -178,6 +203,19 @@ impl C07 {
             }
         };
         let mut sess = Session::start(&env).map_err(|e| Fail::new("harness", e))?;
+        if mode % 3 != 2 && n % 2 == 1 {
+            // the same root searched to depth 3 before, in the same session: the stopped search finds its root cached
+            sess.send(&format!("position fen {} moves {}", r.start.fen6(), moves_text(&r.moves)));
+            sess.send("go depth 3");
+            sess.send("wait");
+            sess.send("isready");
+            if sess.read_until(|l| uci::readyok(l), 60_000).is_none() {
+                sess.kill();
+                ev.inconclusive("warming search did not finish within 60 s");
+                return Ok(());
+            }
+            ev.class("uci_stopped_searches_with_the_root_cached");
+        }
         sess.send(&format!("position fen {} moves {}", r.start.fen6(), moves_text(&r.moves)));
         sess.send(&go);
         if mode % 3 == 0 {
@@ -276,7 +314,7 @@ impl Prop for C07 {
     }
 
     fn rule(&self) -> String {
-        "Cases: end positions of generated walks, fresh or warm table (warm = after a depth-2 search of the same position). In-process the node-entry hook flips the stop flag after exactly N polls, N enumerated exhaustively 0..=64 and then geometrically (x1.4) up to the poll count of the full depth-limited search (depth 3-4), one search per N: the result must be a move legal in the reference model whenever the model has one (None only for checkmate/stalemate roots), and the hook must count 0 node entries after the flip; for a sample of stop instants every cached child of the root is then searched (depth 1-2) with the table the stopped search left behind and must get a legal answer too. Twelve game records that end in a forced repetition (three perpetual-check roots and their colour mirrors, the cycle a b a' b' a played once or after one earlier turn, so that the side to move has a single legal move and it is the one the root repetition filter removes) get the same sweep at depths 2-4 and, through the real binary, `go infinite` + `stop`, `go movetime 0/1` and an exhausted clock. Five fixed boards (start, Kiwipete, 5+5 queens, 8+8 queens, 9+9 queens) get `go depth d`, `stop` after 150 ms through the real binary and must answer within 10 s. About 1 case in 12 drives the real binary: `go infinite` immediately followed by `stop`, `go movetime 0..10`, or VERIF_STOP_AFTER_POLLS=N with `go depth 4`; `bestmove none` with legal moves available is the violation. evaluations = stopped searches. Non-trivial: N smaller than the polls a depth-1 iteration needs (the window in which no iteration has completed), and every binary session; distinct by (position, N).".into()
+        "Cases: end positions of generated walks, fresh or warm table (warm = after a depth-2 search of the same position). In-process the node-entry hook flips the stop flag after exactly N polls, N enumerated exhaustively 0..=64 and then geometrically (x1.4) up to the poll count of the full depth-limited search (depth 3-4), one search per N: the result must be a move legal in the reference model whenever the model has one (None only for checkmate/stalemate roots), and the hook must count 0 node entries after the flip; for a sample of stop instants every cached child of the root is then searched (depth 1-2) with the table the stopped search left behind and must get a legal answer too. Twelve game records that end in a forced repetition (three perpetual-check roots and their colour mirrors, the cycle a b a' b' a played once or after one earlier turn, so that the side to move has a single legal move and it is the one the root repetition filter removes) get the same sweep at depths 2-4 and, through the real binary, `go infinite` + `stop`, `go movetime 0/1` and an exhausted clock. Five fixed boards (start, Kiwipete, 5+5 queens, 8+8 queens, 9+9 queens) get `go depth d`, `stop` after 150 ms through the real binary and must answer within 10 s. Every sweep also contains the stop that is there before the search starts (flag already down), once with the table as it is and once with the root cached at full depth. About 1 case in 12 drives the real binary (half of them after a depth-3 search of the same root in the same session): `go infinite` immediately followed by `stop`, `go movetime 0..10`, or VERIF_STOP_AFTER_POLLS=N with `go depth 4`; `bestmove none` with legal moves available is the violation. evaluations = stopped searches. Non-trivial: N smaller than the polls a depth-1 iteration needs (the window in which no iteration has completed), and every binary session; distinct by (position, N).".into()
     }
 
     fn assumptions(&self) -> Vec<String> {
